@@ -262,4 +262,43 @@ theorem unpackNumeric_realValue (g : GText) (h : g.isRealValue = true) (pf : Opt
   simp only [hstrip, hhex, hint, Bool.false_eq_true, if_false]
   cases pf <;> simp
 
+/-! ### unpack_numeric: which exceptions can escape (after fix 9123e9a in /repo) -/
+
+theorem map_err_iff {α β} (f : α → β) (x : Except PyExc α) (e : PyExc) :
+    Except.map f x = .error e ↔ x = .error e := by
+  cases x <;> simp [Except.map]
+
+theorem unp_no_ovf (pf : Option Nat) (data : List Char) (t : NumTy) (e : PyExc)
+    (h : unpackNumeric pf data t = .error e) : e = .cimXmlParseError ∨ e = .valueError ∨ e = .typeError := by
+  unfold unpackNumeric at h
+  simp only at h
+  split at h
+  · -- the Python number could not be obtained
+    rename_i e' hv
+    simp at h; subst h
+    split at hv
+    · cases hi : intOfStr (pyStrip data) 16 with
+      | ok v => simp [hi, Except.map] at hv
+      | error e2 => simp [hi, Except.map] at hv; subst hv; exact Or.inr (Or.inl (intOfStr_err _ _ _ hi))
+    · split at hv
+      · simp at hv
+      · split at hv <;> simp at hv
+        exact Or.inl hv.symm
+  · rename_i v hv
+    split at h
+    · simp at h; exact Or.inl h.symm
+    · simp at h; exact Or.inl h.symm
+    · rename_i r hne1 hne2
+      -- the constructor result is an error that is neither ValueError nor OverflowError
+      cases t <;> cases v <;> simp only [map_err_iff] at h hne1 hne2
+      case int.inl | int.inr =>
+        rcases mkInt_err _ _ _ _ h with h1 | h1 | h1
+        · exact Or.inr (Or.inr h1)
+        · subst h1; exact absurd h hne1
+        · subst h1; exact absurd h hne2
+      case real32.inl | real64.inl =>
+        have h1 := intToF64_err _ _ h
+        subst h1; exact absurd h hne2
+      all_goals simp at h
+
 end Proofs.CimTypes
